@@ -55,13 +55,13 @@ def run(rep):
     # formatting: outside both verifiers): byte-for-byte comparison with an independent transcription of RDFC-1.0
     deep = rep.tier == "thorough"
     native.bounded_stand_in(rep, ID, "c06", ["rdfc"] + (["deep"] if deep else []), "c06_rdfc10_reference",
-                            "normalize_with / relabel_with (SHA-256 and SHA-384, default limits) against an independent transcription of RDFC-1.0 (replay_src/c06/src/oracle.rs): canonical N-Quads equal byte for byte, identifier map is a bijection onto c14n0..c14n(n-1) and yields the document, no failure unless a limit is really exceeded",
-                            ("about 470 000" if deep else "68 896") + " comparisons: every dataset of <= 3 quads over a 120-quad universe with 3 blank nodes, blank graph names, 2 predicates (quick: 3-quad datasets over one predicate only), plus cycles / cliques / stars / chains / two components of 2..5 blank nodes, plain, over two named graphs, with blank graph names, with one distinguished edge; 2..4 pairs / paths / rings of nodes from several groups with equal first-degree hashes; hubs of 2..6 leaves distinguishable two steps away; two hubs of 6 leaves (the default permutation limit) under " + ("all 720" if deep else "103") + " assignments of the distinguishing literals x 3 label schemes",
+                            "normalize_with / relabel_with (SHA-256 and SHA-384, default limits) against an independent transcription of RDFC-1.0 (replay_src/c06/src/oracle.rs): canonical N-Quads equal byte for byte, identifier map is a bijection onto c14n0..c14n(n-1) and yields the document, no failure unless a limit is really exceeded; cycles / stars with 20 combinations of non-default depth factor and permutation limit: an error exactly when the limit is exceeded, the RDFC-1.0 document otherwise",
+                            ("about 470 000" if deep else "69 076") + " comparisons: every dataset of <= 3 quads over a 120-quad universe with 3 blank nodes, blank graph names, 2 predicates (quick: 3-quad datasets over one predicate only), plus cycles / cliques / stars / chains / two components of 2..5 blank nodes, plain, over two named graphs, with blank graph names, with one distinguished edge; 2..4 pairs / paths / rings of nodes from several groups with equal first-degree hashes; hubs of 2..6 leaves distinguishable two steps away; two hubs of 6 leaves (the default permutation limit) under " + ("all 720" if deep else "103") + " assignments of the distinguishing literals x 3 label schemes",
                             "relabel_with steps 2-6, hash_first_degree_quads, hash_related_bnode, hash_n_degree_quads, BnodeIssuer, normalize_with sorting and the canonical N-Quads writer (escape-free terms) (c14n/src/rdfc10.rs, _cnq.rs, hash.rs)",
                             "./check C06 --replay <this file>   # replay_src/c06 rdfc")
     rep.not_covered += [
         "completeness (n! distinct arrangements) beyond n = 5 in the quick tier / n = 6 in the thorough tier; user-raised permutation limits",
-        "steps 3-5 of the canonicalization algorithm, Hash N-Degree Quads, issuer: not under contract (bounded native stand-in only); canonical N-Quads escaping of literals; datasets beyond the enumerated shapes; non-default limits",
+        "steps 3-5 of the canonicalization algorithm, Hash N-Degree Quads, issuer: not under contract (bounded native stand-in only); canonical N-Quads escaping of literals; datasets beyond the enumerated shapes; limits beyond the 20 enumerated combinations",
     ]
     rep.notes.append("proved: the permutation kernel; the composition of RDFC-1.0 is compared with an independent transcription on a bounded domain (native stand-in, not a proof)")
 
